@@ -170,7 +170,9 @@ pub fn install_observer(root: &str, sink: &Arc<TraceSink>, contents: bool) {
             sink: Arc::clone(sink),
             want_contents: contents,
             ctl: None,
-            mute: vec!["GetCapture", "BgBegin", "BgEnd"],
+            lazy_gets: parking_lot::Mutex::new(Default::default()),
+            bg_active: std::sync::atomic::AtomicBool::new(false),
+            mute: vec![],
         }),
     );
 }
